@@ -184,8 +184,49 @@ class DistScenario(Scenario):
                 ob.require("optimal_wrt_" + label, exact=AND(*ex) if ex else True,
                            tol=OR(d <= delta, AND(*tl)) if tl else True)
 
+    def assume(self, cx):
+        out = list(PR.sweep_assumptions(self.sweep, cx.P))
+        if self.mode in ("opt", "both"):
+            out += self.band_assumptions(cx)
+        return out
+
+    def band_assumptions(self, cx):
+        """C11 excludes inputs whose direction cosines fall strictly inside (0, 1e-2) of a parallel /
+        perpendicular decision (the functions' documented epsilon bands)."""
+        inp = self.build(cx)
+        da, db = directions_of(inp["A"]), directions_of(inp["B"])
+        out = []
+        for u in da:
+            for v in db:
+                c = DOT(u, v)
+                nn = NORM2(u) * NORM2(v)
+                out.append(OR(c == 0, c * c >= 1e-4 * nn))                    # not nearly perpendicular
+                out.append(OR(c * c == nn, c * c <= 0.9801 * nn))             # not nearly parallel
+        return out
+
     def describe(self):
         return {}
+
+
+def directions_of(S):
+    k = S.kind
+    if k == "line":
+        return [S.d]
+    if k == "segment":
+        return [SUB(S.e, S.s)]
+    if k == "plane":
+        return [S.n]
+    if k == "triangle":
+        e0, e1 = SUB(S.pts[1], S.pts[0]), SUB(S.pts[2], S.pts[0])
+        return [e0, e1, SUB(S.pts[2], S.pts[1]), PR.CROSS(e0, e1)]
+    if k == "rectangle":
+        return [S.axes[0], S.axes[1], PR.CROSS(S.axes[0], S.axes[1])]
+    if k in ("box", "cylinder", "ellipsoid"):
+        Rt = PR.transpose(S.R)
+        return [Rt[0], Rt[1], Rt[2]] if k == "box" else [Rt[2]]
+    if k in ("disk", "circle"):
+        return [S.n]
+    return []
 
 
 def make_jobs(prop, tier, seed, funcs=None):
